@@ -19,7 +19,46 @@ Record tstep := { ts_op : op; ts_reads : list loc; ts_writes : list loc }.
    (events on shared cells, consecutive repetitions collapsed) *)
 Record tobs := { t_ok : bool; t_prefix : list op; t_threads : list (list tstep); t_sched : list (nat * event) }.
 
-Record case := { c_cfg : cfg; c_steps : list stepobs; c_repeat_ok : bool; c_thread : option tobs }.
+(* one LIBRARY call of a history: plain operations rendered by the harness (CSeq: parse_plan = one trajectory step
+   per action, ...), or a joint-action call rendered by the MODEL (Model/Store.v apply_actions_at, ma_triplet_at,
+   ma_plan_at) from the call's arguments and the handles alive in the model state when the call starts *)
+Inductive call :=
+| CSeq (l : list op)
+| CJoint (d s : nat) (objs : option nat) (ms : list (option member)) (allow : bool)
+| CMaTriplet (d s pobjs : nat) (ms : list (option member)) (allow : bool)
+| CMaPlan (d pobjs : nat) (steps : list (list (option member))) (allow : bool).
+
+Record cstep := { cs_call : call; cs_changed : list owner; cs_sharing : list (owner * owner) }.
+
+Record case := { c_cfg : cfg; c_calls : list cstep; c_repeat_ok : bool; c_thread : option tobs }.
+
+Definition render (m : mstate) (cl : call) : list op :=
+  let ns := List.length (sts m) in
+  let no := List.length (ops m) in
+  match cl with
+  | CSeq l => l
+  | CJoint d s objs ms allow => fst (fst (fst (apply_actions_at ns no d s objs ms allow)))
+  | CMaTriplet d s pobjs ms allow => fst (fst (fst (ma_triplet_at ns no d s pobjs ms allow)))
+  | CMaPlan d pobjs steps allow => fst (ma_plan_at d pobjs allow steps ns no pobjs)
+  end.
+
+(* only the last operation of a call is observed *)
+Fixpoint mark (l : list op) (ch : list owner) (sh : list (owner * owner)) : list stepobs :=
+  match l with
+  | [] => []
+  | [p] => [{| so_op := p; so_observed := true; so_changed := ch; so_sharing := sh |}]
+  | p :: r => {| so_op := p; so_observed := false; so_changed := []; so_sharing := [] |} :: mark r ch sh
+  end.
+
+Fixpoint expand (c : cfg) (m : mstate) (l : list cstep) : list stepobs :=
+  match l with
+  | [] => []
+  | cs :: r =>
+      let h := render m (cs_call cs) in
+      mark h (cs_changed cs) (cs_sharing cs) ++ expand c (fold_left (fun m p => fst (step c m p)) h m) r
+  end.
+
+Definition c_steps (cs : case) : list stepobs := expand (c_cfg cs) init (c_calls cs).
 
 Definition pair_eqb (p q : owner * owner) : bool :=
   owner_eqb (fst p) (fst q) && owner_eqb (snd p) (snd q).
